@@ -94,6 +94,9 @@ type Session struct {
 	// PermuteRanges: functions (ssa names) whose `range` over a map of 2-3 keys
 	// is explored in every order instead of the deterministic sorted one
 	PermuteRanges map[string]bool
+	// ReloadReturn: positions of `return v, f()` statements and the result indices
+	// that are plain variables: they are re-read at the return (gc's order)
+	ReloadReturn map[token.Pos][]int
 	// CrossCheck > 0: re-decide up to that many assertion queries per harness with
 	// z3 5.1 (z3-new) and cvc5, one-shot; any sat/unsat disagreement is inconclusive
 	CrossCheck     int
